@@ -307,8 +307,8 @@ def guards(st, stop=None, asserts=True):
     """
     out = []
     n = st
-    while n is not None and not isinstance(n, (ast.FunctionDef, ast.Lambda,
-                                               ast.AsyncFunctionDef)) \
+    while n is not None and (n is st or not isinstance(
+            n, (ast.FunctionDef, ast.Lambda, ast.AsyncFunctionDef))) \
             and n is not stop:
         pb = parent_block(n) if isinstance(n, (ast.stmt, ast.ExceptHandler)) else None
         if pb is not None:
